@@ -23,6 +23,30 @@ META = {
 ENTRIES = ["rtcmmessage.RTCMMessage.__init__", "rtcmreader.RTCMReader.parse", "rtcmreader.RTCMReader.read", "rtcmreader.RTCMReader.__next__", "rtcmreader.RTCMReader.__iter__"]
 
 
+def _count_probe_loop(eng, f, loop) -> bool:
+    """`for i in itertools.count(k):` whose body probes `getattr(obj, <name built from i>, SENTINEL)` and breaks / returns when the result `is SENTINEL`."""
+    it = loop.iter
+    if not (isinstance(it, ast.Call) and isinstance(it.func, (ast.Name, ast.Attribute))):
+        return False
+    fname = it.func.id if isinstance(it.func, ast.Name) else norm(it.func)
+    tree = eng.repo.modules[f.module].tree
+    is_count = fname == "itertools.count" or any(isinstance(st, ast.ImportFrom) and st.module == "itertools" and any(a.name == "count" and (a.asname or a.name) == fname for a in st.names) for st in tree.body)
+    if not is_count or not isinstance(loop.target, ast.Name):
+        return False
+    probes = {}
+    for nd in ast.walk(loop):
+        if isinstance(nd, ast.Assign) and len(nd.targets) == 1 and isinstance(nd.targets[0], ast.Name) and isinstance(nd.value, ast.Call) and norm(nd.value.func) == "getattr" and len(nd.value.args) == 3 \
+                and isinstance(nd.value.args[2], ast.Name) and any(isinstance(x, ast.Name) and x.id == loop.target.id for x in ast.walk(nd.value.args[1])):
+            probes[nd.targets[0].id] = nd.value.args[2].id
+    for nd in ast.walk(loop):
+        if isinstance(nd, ast.If) and isinstance(nd.test, ast.Compare) and len(nd.test.ops) == 1 and isinstance(nd.test.left, ast.Name) and nd.test.left.id in probes \
+                and isinstance(nd.test.comparators[0], ast.Name) and nd.test.comparators[0].id == probes[nd.test.left.id]:
+            leave = nd.body if isinstance(nd.test.ops[0], ast.Is) else (nd.orelse if isinstance(nd.test.ops[0], ast.IsNot) else [])
+            if any(isinstance(x, (ast.Break, ast.Return)) for st in leave for x in ast.walk(st)):
+                return True
+    return False
+
+
 def run(eng, ctx):
     mr = MayRaise(eng)
     for a in sorted(mr.assumptions)[:8]:
@@ -146,7 +170,9 @@ def run(eng, ctx):
             if isinstance(n, ast.For):
                 it = n.iter
                 okit = (isinstance(it, ast.Call) and norm(it.func) in ("range", "enumerate", "zip", "reversed", "sorted")) or isinstance(it, (ast.Name, ast.Attribute, ast.List, ast.Tuple, ast.Subscript)) or (isinstance(it, ast.Call) and isinstance(it.func, ast.Attribute) and it.func.attr in ("values", "items", "keys"))
-                if not okit:
+                if not okit and _count_probe_loop(eng, f, n):
+                    ctx.ok("C04.D3", q, f"for ... in {norm(it)[:50]}", found="unbounded counter left when an attribute probe with a sentinel default finds nothing (finitely many attributes)", **eng.loc(f, n))
+                elif not okit:
                     ctx.bad("C04.D3", q, f"for ... in {norm(it)[:50]}", expected="iteration over a range / container", found="iterable of unknown finiteness", **eng.loc(f, n))
     ctx.instance("while loops with witnesses", nloops, 5)
     # the witness of the socket refill loop rests on the receiver reporting a closed socket
